@@ -148,7 +148,7 @@ AS_FLOW_DEFAULT = dict(v=80.0, alpha=3.0, beta=0.0, Mach=0.3, re=1e6, rho=1.0, C
 
 
 def aerostruct_problem(surfaces, flow=None, npts=1, compressible=False, rotational=False, setup=True, mode="auto",
-                       flows=None, tighten=1e-12):
+                       flows=None, tighten=1e-12, force_alloc_complex=False):
     """AerostructGeometry + n AerostructPoint groups wired as in the documentation.
     flows: optional list of per-point dicts (then v, alpha, Mach, rho, re, load_factor are per point)."""
     from openaerostruct.integration.aerostruct_groups import AerostructGeometry, AerostructPoint
@@ -231,9 +231,9 @@ def aerostruct_problem(surfaces, flow=None, npts=1, compressible=False, rotation
                 prob.model.connect(name + "_engine_thrusts", cp + "engine_thrusts")
     if setup:
         if mode == "auto":
-            prob.setup()
+            prob.setup(force_alloc_complex=force_alloc_complex)
         else:
-            prob.setup(mode=mode)
+            prob.setup(mode=mode, force_alloc_complex=force_alloc_complex)
         quiet_coupled(prob, npts, tighten)
     return prob
 
